@@ -1,0 +1,56 @@
+//go:build verif
+
+package client
+
+// Verification hooks (build tag verif): projection of the interleaved-mode
+// state of the clients, and a setter that lets a harness put a client "in
+// interleaved mode" without running real exchanges. Not part of regular builds.
+
+import "example.com/scion-time/net/ntp"
+
+type VerifPrev struct {
+	Reference   string
+	Path        string
+	Interleaved bool
+	CTxTime     ntp.Time64
+	CRxTime     ntp.Time64
+	SRxTime     ntp.Time64
+}
+
+func (c *IPClient) VerifPrev() VerifPrev {
+	return VerifPrev{
+		Reference:   c.prev.reference,
+		Interleaved: c.prev.interleaved,
+		CTxTime:     c.prev.cTxTime,
+		CRxTime:     c.prev.cRxTime,
+		SRxTime:     c.prev.sRxTime,
+	}
+}
+
+func (c *IPClient) VerifSetPrev(p VerifPrev) {
+	c.prev.reference = p.Reference
+	c.prev.interleaved = p.Interleaved
+	c.prev.cTxTime = p.CTxTime
+	c.prev.cRxTime = p.CRxTime
+	c.prev.sRxTime = p.SRxTime
+}
+
+func (c *SCIONClient) VerifPrev() VerifPrev {
+	return VerifPrev{
+		Reference:   c.prev.reference,
+		Path:        c.prev.path,
+		Interleaved: c.prev.interleaved,
+		CTxTime:     c.prev.cTxTime,
+		CRxTime:     c.prev.cRxTime,
+		SRxTime:     c.prev.sRxTime,
+	}
+}
+
+func (c *SCIONClient) VerifSetPrev(p VerifPrev) {
+	c.prev.reference = p.Reference
+	c.prev.path = p.Path
+	c.prev.interleaved = p.Interleaved
+	c.prev.cTxTime = p.CTxTime
+	c.prev.cRxTime = p.CRxTime
+	c.prev.sRxTime = p.SRxTime
+}
